@@ -19,7 +19,7 @@ REQUIRED_THEOREMS = ["Clikit.Props.C02.parse_terminates", "Clikit.Props.C02.erro
                      "Clikit.Props.C02.d24_guard_needed", "Clikit.Props.C02.fault_unknown_long",
                      "Clikit.Props.C02.fault_unknown_short", "Clikit.Props.C02.fault_value_for_flag",
                      "Clikit.Props.C02.fault_required_value_missing", "Clikit.Props.C02.fault_missing_required",
-                     "Clikit.Props.C02.parse_of_loop_error"]
+                     "Clikit.Props.C02.parse_of_loop_error", "Clikit.Props.C02.fault_surplus_positional"]
 TECHNIQUE = ("Lean 4 theorems on the parser model (no foreign exception, lenient never raises a parse error, "
              "strict-ok implies lenient-identical, termination of the token loop) + exhaustive/differential correspondence")
 LEVEL_TEXT = ("Proved in Lean for ALL formats, token lists and both modes, on a model of DefaultArgsParser.parse/Args that "
@@ -28,7 +28,7 @@ LEVEL_TEXT = ("Proved in Lean for ALL formats, token lists and both modes, on a 
               "identical lenient result, and - for well-formed formats, via invariants of the parser's scratch dictionaries "
               "through the token loop and the command-name re-alignment - no exception other than cannot-parse, "
               "no-such-option and ValueError escapes; and after ANY well-formed prefix an unknown long/short option is rejected "
-              "with no-such-option, a value attached to a flag or a missing required value with cannot-parse (strict), while "
+              "with no-such-option, a value attached to a flag, a missing required value or a surplus positional with cannot-parse (strict), while "
               "lenient mode continues from the state before the fault. The model is tied to the code by differential runs (exhaustive short "
               "token sequences over an adversarial alphabet x catalogue formats, random longer ones, single-fault mutants "
               "with the required error class).")
@@ -48,7 +48,9 @@ TRUSTED_BASE = [
 ]
 ASSUMPTIONS = [
     "FmtWF for no_foreign_exception: unique argument names, accepts-value options are required/optional/multi (C07), optional-value defaults convert inside the model",
-    "fault-class -> error-class claims: generated single-fault mutants (oracle), not a theorem",
+    "fault-class -> error-class claims: theorems after any well-formed prefix (unknown long/short option, value for a flag, "
+    "required value missing, surplus positional, required argument missing); the generated single-fault mutants "
+    "exercise the same claims on the real parser through the oracle",
 ]
 BATCH = 4000
 
